@@ -13,7 +13,7 @@ RULE = ("seeded histories of length 1..8 over {append, append='overwrite', remov
         "(n partitions, operation-kind sequence) tuples")
 ASSUMPTIONS = ["rows are identified by a unique rid column; which rows a removed row group held is observed by reading it before the removal",
                "rows with a null partition key do not occur (generator)"]
-CASE_TIMEOUT = 300
+CASE_TIMEOUT = 120
 
 
 def _frame(rng, rid0, n, nparts, same_domain=False, cat_partition=False):
